@@ -269,3 +269,16 @@ fn c14_rotation_policy_3_peers() {
 fn c14_rotation_policy_limit_scaled_to_1() {
     rotation_policy(3);
 }
+
+// @prop C14
+// @tier thorough
+// @config MAX_UNCHOKED=1
+// @fn Session::change_conn_state
+// @bound 2 peers with the slot limit scaled from 10 to 1 in the scratch copy, every flag combination, every rate pair (ties included), every admissible optimistic pick or none
+// @outside the real limit of ten; three or more peers (thorough tier)
+// @desc small version of c14_rotation_policy_limit_scaled_to_1 (about 7 min, counterexamples small enough to replay): with one slot and two peers the better-rated interested peer gets the slot, the other is choked (or optimistically unchoked), uninterested peers are choked, and the broadcast map mirrors exactly the changes
+#[kani::proof]
+#[kani::unwind(4)]
+fn c14_rotation_policy_2_peers_limit_scaled_to_1() {
+    rotation_policy(2);
+}
